@@ -82,45 +82,134 @@ def _alloc_expr(node, env, attr, where):
     raise TranslateError(f"{where}: unsupported size expression {ast.unparse(node)}")
 
 
-def params():
-    """How many bytes each buffered serializer allocates for its receive buffer, as Coq functions of (sizehint, limit or
-    packet size), translated from the bodies of create_deserializer_buffer."""
+def _alloc_cond(node, env, attr, where):
+    import ast
+    from common.runner import TranslateError
+    ops = {ast.Lt: "<?", ast.LtE: "<=?", ast.Gt: ">?", ast.GtE: ">=?", ast.Eq: "=?"}
+    if isinstance(node, ast.Compare) and len(node.ops) == 1 and type(node.ops[0]) in ops:
+        a = _alloc_expr(node.left, env, attr, where)
+        b = _alloc_expr(node.comparators[0], env, attr, where)
+        op = ops[type(node.ops[0])]
+        if op == ">?":
+            return f"({b} <? {a})"
+        if op == ">=?":
+            return f"({b} <=? {a})"
+        return f"({a} {op} {b})"
+    raise TranslateError(f"{where}: unsupported condition {ast.unparse(node)}")
+
+
+def _alloc_translate(rel, cname, attr):
+    """body of create_deserializer_buffer -> Coq term over N (variables sizehint, param); TranslateError when the shape
+    is outside the fragment: assignments, `if c: x = e [else: x = e']`, return [memoryview(]bytearray(e)[)]"""
     import ast
     import os
     from common.runner import REPO, TranslateError
+    where = f"{cname}.create_deserializer_buffer"
+    tree = ast.parse(open(os.path.join(REPO, "src", "easynetwork", rel)).read())
+    klass = [n for n in tree.body if isinstance(n, ast.ClassDef) and n.name == cname]
+    fns = [n for k in klass for n in k.body if isinstance(n, ast.FunctionDef) and n.name == "create_deserializer_buffer"]
+    if len(klass) != 1 or len(fns) != 1:
+        raise TranslateError(f"{where}: definition not found")
+    fn = fns[0]
+    if [a.arg for a in fn.args.posonlyargs + fn.args.args] != ["self", "sizehint"]:
+        raise TranslateError(f"{where}: unexpected parameters")
+    stmts = [st for st in fn.body
+             if not (isinstance(st, ast.Expr) and isinstance(st.value, ast.Constant) and isinstance(st.value.value, str))]
+    env = {"sizehint": "sizehint"}
+
+    def assign(st, env):
+        if isinstance(st, ast.AnnAssign) and isinstance(st.target, ast.Name) and st.value is not None:
+            return st.target.id, _alloc_expr(st.value, env, attr, where)
+        if isinstance(st, ast.Assign) and len(st.targets) == 1 and isinstance(st.targets[0], ast.Name):
+            return st.targets[0].id, _alloc_expr(st.value, env, attr, where)
+        raise TranslateError(f"{where}: unsupported statement {ast.unparse(st)}")
+
+    for st in stmts[:-1]:
+        if isinstance(st, ast.If):
+            cond = _alloc_cond(st.test, env, attr, where)
+            if len(st.body) != 1 or len(st.orelse) > 1:
+                raise TranslateError(f"{where}: unsupported if statement")
+            name, then = assign(st.body[0], env)
+            if st.orelse:
+                name2, other = assign(st.orelse[0], env)
+                if name2 != name:
+                    raise TranslateError(f"{where}: the two branches assign different names")
+            elif name in env:
+                other = env[name]
+            else:
+                raise TranslateError(f"{where}: {name} assigned in one branch only")
+            env[name] = f"(if {cond} then {then} else {other})"
+        else:
+            name, val = assign(st, env)
+            env[name] = val
+    ret = stmts[-1] if stmts else None
+    if not isinstance(ret, ast.Return) or ret.value is None:
+        raise TranslateError(f"{where}: does not end with a return")
+    val = ret.value
+    if (isinstance(val, ast.Call) and isinstance(val.func, ast.Name) and val.func.id == "memoryview"
+            and len(val.args) == 1 and not val.keywords):
+        val = val.args[0]
+    if not (isinstance(val, ast.Call) and isinstance(val.func, ast.Name) and val.func.id == "bytearray"
+            and len(val.args) == 1 and not val.keywords):
+        raise TranslateError(f"{where}: does not return a bytearray(size) / memoryview(bytearray(size))")
+    return ast.unparse(ret), _alloc_expr(val.args[0], env, attr, where)
+
+
+_ALLOC_CANONICAL = {   # what the models allocate (Frame/BufReadUntil.v balloc, Frame/Generic.v fb_alloc / cz_alloc)
+    "autosep_alloc": ("param", lambda h, p: p),
+    "line_alloc": ("param", lambda h, p: p),
+    "fixed_alloc": ("(N.max param sizehint)", lambda h, p: max(p, h)),
+    "filebased_alloc": ("(N.min sizehint param)", lambda h, p: min(h, p)),
+    "compressor_alloc": ("sizehint", lambda h, p: h),
+}
+
+
+def _alloc_real(name, h, p):
+    """size of the buffer the real serializer allocates for size hint h and limit / record size p"""
+    if name == "autosep_alloc":
+        ser = sc.IdAutoSep(b"\n", p)
+    elif name == "line_alloc":
+        from easynetwork.serializers.line import StringLineSerializer
+        ser = StringLineSerializer("LF", limit=p)
+    elif name == "fixed_alloc":
+        ser = sc.IdFixed(p)
+    elif name == "filebased_alloc":
+        ser = sc2.LenPrefixed(p)
+    else:
+        from easynetwork.serializers.wrapper.compressor import ZlibCompressorSerializer
+        ser = ZlibCompressorSerializer(sc.BytesPassThrough())
+    with memoryview(ser.create_deserializer_buffer(h)) as mv:
+        return mv.nbytes
+
+
+_ALLOC_GRID = [(h, p) for h in (1, 2, 64, 4096, 16383, 16384, 16385, 65536, 300000)
+               for p in (1, 2, 3, 100, 16384, 20000, 65536, 65537, 250000)]
+
+
+def params():
+    """How many bytes each buffered serializer allocates for its receive buffer, as Coq functions of (sizehint, limit or
+    packet size).  Translated from the bodies of create_deserializer_buffer; every definition emitted is also evaluated
+    against the real method on a grid of (hint, limit) values.  A body outside the translator's fragment is accepted only
+    when the real method agrees with the model's allocation on the whole grid (a behaviour-preserving rewrite then changes
+    nothing); otherwise the translation fails closed."""
+    from common.runner import TranslateError
     out = ["From Coq Require Import NArith.", "Local Open Scope N_scope."]
     for name, rel, cname, attr in _ALLOC_SITES:
-        where = f"{cname}.create_deserializer_buffer"
-        tree = ast.parse(open(os.path.join(REPO, "src", "easynetwork", rel)).read())
-        klass = [n for n in tree.body if isinstance(n, ast.ClassDef) and n.name == cname]
-        fns = [n for k in klass for n in k.body if isinstance(n, ast.FunctionDef) and n.name == "create_deserializer_buffer"]
-        if len(klass) != 1 or len(fns) != 1:
-            raise TranslateError(f"{where}: definition not found")
-        fn = fns[0]
-        if [a.arg for a in fn.args.posonlyargs + fn.args.args] != ["self", "sizehint"]:
-            raise TranslateError(f"{where}: unexpected parameters")
-        stmts = [st for st in fn.body
-                 if not (isinstance(st, ast.Expr) and isinstance(st.value, ast.Constant) and isinstance(st.value.value, str))]
-        env = {"sizehint": "sizehint"}
-        for st in stmts[:-1]:
-            if isinstance(st, ast.AnnAssign) and isinstance(st.target, ast.Name) and st.value is not None:
-                env[st.target.id] = _alloc_expr(st.value, env, attr, where)
-            elif isinstance(st, ast.Assign) and len(st.targets) == 1 and isinstance(st.targets[0], ast.Name):
-                env[st.targets[0].id] = _alloc_expr(st.value, env, attr, where)
-            else:
-                raise TranslateError(f"{where}: unsupported statement {ast.unparse(st)}")
-        ret = stmts[-1] if stmts else None
-        if not isinstance(ret, ast.Return) or ret.value is None:
-            raise TranslateError(f"{where}: does not end with a return")
-        val = ret.value
-        if (isinstance(val, ast.Call) and isinstance(val.func, ast.Name) and val.func.id == "memoryview"
-                and len(val.args) == 1 and not val.keywords):
-            val = val.args[0]
-        if not (isinstance(val, ast.Call) and isinstance(val.func, ast.Name) and val.func.id == "bytearray"
-                and len(val.args) == 1 and not val.keywords):
-            raise TranslateError(f"{where}: does not return a bytearray(size) / memoryview(bytearray(size))")
-        out.append(f"(* {rel} {where}: {ast.unparse(ret)} *)")
-        out.append(f"Definition {name} (sizehint param : N) : N := {_alloc_expr(val.args[0], env, attr, where)}.")
+        canon_text, canon_fn = _ALLOC_CANONICAL[name]
+        try:
+            src, term = _alloc_translate(rel, cname, attr)
+            note = f"{rel} {cname}.create_deserializer_buffer: {src}"
+        except TranslateError as exc:
+            bad = [(h, p) for h, p in _ALLOC_GRID if _alloc_real(name, h, p) != canon_fn(h, p)]
+            if bad:
+                h, p = bad[0]
+                raise TranslateError(f"{exc}; and the real method allocates {_alloc_real(name, h, p)} bytes for "
+                                     f"sizehint={h}, limit/size={p} where the model allocates {canon_fn(h, p)}")
+            term = canon_text
+            note = (f"{rel} {cname}.create_deserializer_buffer: body outside the translator's fragment ({exc}); the real "
+                    f"method agrees with this definition on {len(_ALLOC_GRID)} (hint, limit) pairs")
+        out.append(f"(* {note} *)")
+        out.append(f"Definition {name} (sizehint param : N) : N := {term}.")
     return "\n".join(out) + "\n"
 
 
